@@ -8,18 +8,18 @@ Open Scope Z_scope.
 Inductive val := A (a : bytes) | L (l : list val).
 
 Definition flush (atom : option bytes) (cur : list val) : list val :=
-  match atom with Some a => A (rev a) :: cur | None => cur end.
+  match atom with Some a => A (rev_append a []) :: cur | None => cur end.
 
 Fixpoint parse_go (inp : bytes) (atom : option bytes) (cur : list val)
          (stack : list (list val)) : option (list val) :=
   match inp with
-  | [] => match stack with [] => Some (rev (flush atom cur)) | _ => None end
+  | [] => match stack with [] => Some (rev_append (flush atom cur) []) | _ => None end
   | c :: r =>
     if c =? 40 then parse_go r None [] (flush atom cur :: stack)
     else if c =? 41 then
       match stack with
       | [] => None
-      | p :: st => parse_go r None (L (rev (flush atom cur)) :: p) st
+      | p :: st => parse_go r None (L (rev_append (flush atom cur) []) :: p) st
       end
     else if (c =? 32) || (c =? 10) || (c =? 9) || (c =? 13) then
       parse_go r None (flush atom cur) stack
